@@ -305,6 +305,21 @@ def in_subprocess(fn, timeout=30.):
     return val
 
 
+ALIAS_CORPUS = """def compiled(a):
+    lock0 = multiprocessing.Lock()
+    v0 = parallel.shempty((c1, c1), dtype='int64')
+    with lock0:
+        v1 = %s
+    with lock0:
+        v0.fill(0)
+    v6 = c3 + c4
+    with parallel.ctxrange('loop 0', c2) as v7:
+        for i0 in map(numpy.int_, v7):
+            v3 = numpy.einsum(',a->a', i0, v6)
+            %s
+    return (v0,)
+"""
+
 # ================================================================================================ the check
 
 def run(c):
@@ -312,7 +327,7 @@ def run(c):
     import treelog
     quick = c.tier == 'quick'
     c.rule = ('scripts: random evaluable DAGs with 1-3 outer loops (LoopSum / LoopConcatenate over scalars, vectors, Inflate scatters, nested loops, '
-              'loops reading earlier loops), the in-place protocol zoo (all chains of Transpose / Diagonalize / Add outside and Transpose / Diagonalize / Add / inner LoopSum / inner LoopConcatenate inside a parallel LoopSum / LoopConcatenate over generic / Inflate / Assemble / matrix leaves: length <= 1 exhaustively, <= 2 sampled (quick) or exhaustively (thorough), as written and simplified+optimized) '
+              'loops reading earlier loops), the in-place protocol zoo (all chains of Transpose / Diagonalize / Add outside and Transpose / Diagonalize / Add / inner LoopSum / inner LoopConcatenate inside a parallel LoopSum / LoopConcatenate over generic / Inflate / Assemble / matrix leaves: all 192 chains of length <= 1 as written, plus a random sample (quick 60, thorough 2000) of the 5424 other (chain of length <= 2, as written | simplified+optimized) combinations) '
               'and nutils integrals / sample evaluations on rectilinear meshes, compiled under maxprocs 2-8; '
               'schedules: event lists s<w>/k<w>/x<w> for 1-4 real processes sharing one parallel.range(0..4), biased to contention inside __next__; '
               'faults: (role, kind, ordinal) in a probe evaluated inside the loop; a case is non-trivial when the loop has >= 2 iterations and >= 2 processes; '
@@ -334,9 +349,9 @@ def run(c):
         reqs.append((kind, payload, line))
 
     t_budget = dict(quick=dict(nscripts=45, nnutils=14, nsched=110, nfault=16, amp=10, zoo_extra=60, zoo_dyn=48, zoo_amp=48),
-                    thorough=dict(nscripts=700, nnutils=160, nsched=4000, nfault=220, amp=120, zoo_extra=10**6, zoo_dyn=700, zoo_amp=500))[c.tier]
+                    thorough=dict(nscripts=700, nnutils=160, nsched=4000, nfault=220, amp=120, zoo_extra=2000, zoo_dyn=500, zoo_amp=400))[c.tier]
     # wall-clock boxes per real-process stream (seconds): the case lists are deterministic, a loaded machine just gets through a shorter prefix
-    box = dict(quick=dict(m1=10, m2=6, m3=4, loc=3, sched=10, width=4, shared=4, fault=8, zoo=7, zooamp=6), thorough=dict(m1=200, m2=100, m3=80, loc=40, sched=240, width=30, shared=30, fault=180, zoo=150, zooamp=150))[c.tier]
+    box = dict(quick=dict(m1=10, m2=6, m3=4, loc=3, sched=10, width=4, shared=4, fault=8, zoo=7, zooamp=6), thorough=dict(m1=200, m2=100, m3=80, loc=40, sched=240, width=30, shared=30, fault=180, zoo=90, zooamp=80))[c.tier]
     import random
     R = {k: random.Random(c.rng.getrandbits(64)) for k in ('m1', 'm2', 'm3', 'loc', 'x', 'sched', 'shared', 'fault', 'explore', 'search', 'zoo')}
     c.search_rng = R['search']
@@ -709,6 +724,12 @@ def run(c):
 
     # alias controls: a view of the target (einsum diagonal, transpose, slice, reshape, …) bound to a fresh variable in front of the loop
     # IS the shared array: the update through it needs the lock (negative control) and is fine with it (positive control)
+    for view in Z.VIEWS:      # corpus: the minimal script shape (view of a shared result created once in front of the loop), every view form
+        for keep in (False, True):
+            upd = 'numpy.add(v1, v3, out=v1)'
+            src = ALIAS_CORPUS % (view.format(T='v0'), ('with lock0:\n                ' + upd) if keep else upd)
+            toks, _ = X.describe(src)
+            ask('lockok-pos' if keep else 'lockok-neg', ('alias-corpus-locked' if keep else 'alias-corpus-unlocked', src, 'alias-corpus', None, view), 'lockok||' + ' '.join(toks))
     pool = sorted(par_scripts.items())
     R['x'].shuffle(pool)
     nalias = 0
@@ -851,7 +872,7 @@ def run(c):
     pos_fail = 0
     for (what, src, tag, orig, view), line, a in by.get('lockok-pos', []):
         c.count('x:positive-control:' + what); c.count('x:alias-view:' + view.replace('{T}', 'T').replace(' ', ''))
-        if verdict_of.get(orig) and not a.startswith('ok=1'):
+        if (orig is None or verdict_of.get(orig)) and not a.startswith('ok=1'):
             pos_fail += 1
             c.broken_no_input('lockOK:alias-positive-control', 'Lean rejects an accepted script after its locked accumulation target was bound to a variable (%s) in front of the loop: the alias rule is broken' % view,
                               dict(script=src, answer=a))
